@@ -201,25 +201,36 @@ def stubs(display_fmt_of):
             raise Inconclusive(f"K-sqlstr: template {tpl} args {args}")
         parts = decode_template(tpl.f[0])
         argv = [args.f[k] for k in sorted(k for k in args.f if isinstance(k, int))]
-        nargs = [p for p in parts if p[0] == "arg"]
-        if len(nargs) != 1 or parts[-1][0] == "arg" and False:
-            raise Inconclusive(f"K-sqlstr: template with {len(nargs)} arguments: {parts}")
-        k = parts.index(nargs[0])
-        for kind, v in parts[:k]:
-            st.trace.append(("lit", v))
-        # literal pieces after the argument are written when the argument's fmt has returned: recorded as deferred
-        st.trace.append(("deferred", "".join(v for kind, v in parts[k + 1:])))
-        arg = argv[nargs[0][1]]
-        if not (isinstance(arg, SAgg) and arg.kind == "fmtarg"):
-            raise Inconclusive(f"K-sqlstr: fmt argument {arg}")
-        inner = models.deref(I, st, arg.f[0])
-        if isinstance(inner, (Txt, Slice)):        # `{v}` of a String / &str: written verbatim
-            st.trace.append(("write", inner))
+        events, call = [], None
+        for kind, v in parts:
+            if kind == "lit":
+                events.append(("lit", v))
+                continue
+            arg = argv[v]
+            if not (isinstance(arg, SAgg) and arg.kind == "fmtarg"):
+                raise Inconclusive(f"K-sqlstr: fmt argument {arg}")
+            inner = models.deref(I, st, arg.f[0])
+            if isinstance(inner, (Txt, Slice)):        # `{v}` of a String / &str: written verbatim
+                events.append(("write", inner))
+            elif isinstance(inner, SInt) and inner.bits == 32:      # `{c}` of a char
+                events.append(("char", inner.t))
+            elif isinstance(inner, SStr) and isinstance(inner.v, str):
+                events.append(("lit", inner.v))
+            else:
+                if call is not None:
+                    raise Inconclusive(f"K-sqlstr: template with two arguments that need a Display body: {parts}")
+                body = display_fmt_of(arg.name)
+                if body is None:
+                    raise Inconclusive(f"K-sqlstr: no Display body for {arg.name}")
+                call = (len(events), body, arg.f[0])
+        if call is None:
+            st.trace += events
             return _ok_unit()
-        body = display_fmt_of(arg.name)
-        if body is None:
-            raise Inconclusive(f"K-sqlstr: no Display body for {arg.name}")
-        return ("call", body, [arg.f[0], a[0]])
+        k, body, ref = call
+        st.trace += events[:k]
+        # what the template writes after the argument is written when the argument's fmt has returned: recorded as deferred
+        st.trace.append(("deferred", events[k:]))
+        return ("call", body, [ref, a[0]])
 
     def m_into(I, st, a):
         return SAgg("struct", "ValueWithSpan", {"value": a[0], 0: a[0]})
@@ -227,10 +238,10 @@ def stubs(display_fmt_of):
     def m_replace_char(I, st, a):
         s = _txt(I, st, a[0])
         pat = models.deref(I, st, a[1])
-        rep = models.deref(I, st, a[2])
-        if not isinstance(pat, SInt) or not (isinstance(rep, SStr) and isinstance(rep.v, str)):
+        rep = _txt(I, st, a[2])
+        if not isinstance(pat, SInt) or not z3.is_bv_value(z3.simplify(rep.n)):
             raise Inconclusive(f"K-sqlstr: replace({pat}, {rep})")
-        repc = [z3.BitVecVal(ord(c), 32) for c in rep.v]
+        repc = rep.ch[:z3.simplify(rep.n).as_long()]
         alts = []
 
         def rec(i, acc, conds):
@@ -242,7 +253,19 @@ def stubs(display_fmt_of):
         rec(0, [], [])
         return alts
 
+    def m_char_to_string(I, st, a):
+        c = models.deref(I, st, a[0])
+        return Txt([c.t], z3.BitVecVal(1, 64), "char")
+
+    def m_repeat(I, st, a):
+        s, k = _txt(I, st, a[0]), z3.simplify(a[1].t)
+        if not (z3.is_bv_value(k) and z3.is_bv_value(z3.simplify(s.n))):
+            raise Inconclusive("K-sqlstr: repeat with a symbolic count or length")
+        n = z3.simplify(s.n).as_long()
+        return Txt(s.ch[:n] * k.as_long(), z3.BitVecVal(n * k.as_long(), 64), "repeated")
+
     return {
+        "<char as ToString>::to_string": m_char_to_string, "std::str::<impl str>::repeat": m_repeat, "alloc::str::<impl str>::repeat": m_repeat,
         "<char as core::default::Default>::default": m_char_default, "<char as Default>::default": m_char_default,
         "<char as std::default::Default>::default": m_char_default,
         "core::str::<impl str>::char_indices": m_char_indices,
@@ -318,13 +341,13 @@ def output_chars(trace, n_of):
                 j = v.j if v.j is not None else n_of(v.s)
                 out += v.s.ch[v.i:j]
     for d in reversed(deferred):
-        out += [z3.BitVecVal(ord(c), 32) for c in d]
+        out += output_chars(d, n_of)
     return out
 
 
-def reads_back(out, text_chars):
-    """z3 formula: `out` is exactly one '...' literal of a doubled-quote-only lexer and denotes text_chars"""
-    Q = z3.BitVecVal(39, 32)
+def reads_back(out, text_chars, Q=None):
+    """z3 formula: `out` is exactly one '...' literal (or Q...Q quoted identifier) of a doubled-quote-only lexer and denotes text_chars"""
+    Q = z3.BitVecVal(39, 32) if Q is None else Q
     m, n = len(out), len(text_chars)
     if m < 2:
         return z3.BoolVal(False)
@@ -426,6 +449,7 @@ def check_sqlstr(R, drv, tier):
             return I
         exits2 = []
         I1 = interp()
+        I1.lazy = True          # helpers of the current tree that translate_literal calls are loaded from the prqlc MIR
         ex1 = []
         for variant in ("String", "RawString"):
             lit = mk_enum("Literal", variant, {0: text})
@@ -531,3 +555,163 @@ def check_sqlstr(R, drv, tier):
     R.cov.setdefault("bounds", {})["K-sqlstr"] = (f"strings of at most {L} characters, every code point, symbolic length; translate_literal (String, RawString) from the prqlc MIR, "
                                                   "Value::fmt / escape_single_quote_string / EscapeQuotedString::fmt from the MIR of the sqlparser dependency")
     core.log(f"[K-sqlstr] {len(exits2)} exits, {nq} queries, {nviol} violations in {time.time()-t0:.1f}s")
+
+
+def check_sqlident(R, drv, tier):
+    """K-sqlident (C09): a name that is written quoted denotes exactly that name.
+    prqlc `translate_ident_part` from the prqlc MIR (regex verdict, keyword verdict, quoting style and the dialect's quote character are
+    symbolic), sqlparser `Ident::with_quote` / `<Ident as Display>::fmt` / `escape_quoted_string` / `<EscapeQuotedString as Display>::fmt`
+    from the MIR of the dependency. Per exit path with a quote style, z3 decides that the characters written are one q...q token of a
+    lexer whose only escape is the doubled quote character, denoting the name."""
+    import core
+    import kernels
+    import sqlite3
+    from kchecks import _account
+    t0 = time.time()
+    L = 4 if tier == "quick" else 6
+    try:
+        src = kernels.sqlparser_src()
+        vsrc = os.path.join(src, "src", "ast", "value.rs")
+        msrc = os.path.join(src, "src", "ast", "mod.rs")
+        register_enum("IdentQuotingStyle", enum_from_source(os.path.join(core.REPO, "prqlc/prqlc/src/sql/dialect.rs"), "IdentQuotingStyle"))
+        lines = _display_lines(vsrc)
+        mlines = _display_lines(msrc)
+        if "Ident" not in mlines:
+            raise Inconclusive("impl Display for Ident not found in sqlparser")
+        funcs = dict(kernels.load(r"^gen_expr::translate_ident_part($|::promoted)"))
+        funcs.update(kernels.load_sqlparser(r"^(escape_\w+$|ast::value::<impl at [^>]*value\.rs:(%s):|ast::<impl at [^>]*mod\.rs:%d:)" %
+                                            ("|".join(str(v) for v in sorted(set(lines.values()))), mlines["Ident"])))
+        ident_fmt = [n for n in funcs if re.search(r"mod\.rs:%d:[^>]*>::fmt$" % mlines["Ident"], n)]
+        if len(ident_fmt) != 1:
+            raise Inconclusive("Display body of sqlparser Ident not found")
+
+        def display_fmt_of(tyname):
+            short = re.sub(r"<.*", "", tyname).split("::")[-1]
+            ln = lines.get(short)
+            cands = [n for n in funcs if ln is not None and re.search(r"value\.rs:%d:[^>]*>::fmt$" % ln, n)]
+            return cands[0] if len(cands) == 1 else None
+        text, dom = symbolic_text(L)
+        q = z3.BitVec("ident_quote", 32)
+        is_bare, is_kw, style = z3.Bool("regex_says_bare"), z3.Bool("is_keyword"), z3.BitVec("quoting_style", 64)
+        nstyles = len(VARIANTS["IdentQuotingStyle"])
+        dom = dom + [z3.Or(q == 34, q == 96), z3.ULT(style, nstyles)]
+        sb = stubs(display_fmt_of)
+        sb.update({
+            "valid_ident": lambda I, st, a: SOpaque("regex", False),
+            "regex::Regex::is_match": lambda I, st, a: SBool(is_bare),
+            "is_keyword": lambda I, st, a: SBool(is_kw),
+            "keywords::is_keyword": lambda I, st, a: SBool(is_kw),
+            "<dyn DialectHandler as DialectHandler>::ident_quoting_style": lambda I, st, a: SEnum("IdentQuotingStyle", style, {}),
+            "<dyn DialectHandler as DialectHandler>::ident_quote": lambda I, st, a: SInt(q, 32, False),
+            "sqlparser::ast::Ident::new": lambda I, st, a: SAgg("struct", "Ident", {0: a[0], 1: none(), "value": a[0], "quote_style": none()}),
+            "sqlparser::ast::Ident::with_quote": lambda I, st, a: SAgg("struct", "Ident", {0: a[1], 1: some(a[0]), "value": a[1], "quote_style": some(a[0])}),
+        })
+        pats = [(re.compile(rx), sb[key]) for rx, key in PATTERNS]
+
+        def interp():
+            I = Interp(funcs, stubs=sb, unwind=2 * L + 4, timeout_s=300 if tier == "quick" else 1200, max_paths=20000)
+            I.stub_patterns = pats
+            I.lazy = False
+            return I
+        I1 = interp()
+        I1.opaque_sinks = True
+        I1.lazy = True          # helpers of the current tree that translate_ident_part calls are loaded from the prqlc MIR
+        ex1 = I1.run("gen_expr::translate_ident_part", [text, SOpaque("ctx", False)], dom)
+        _account(R, I1, "K-sqlident")
+        exits2 = []
+        for e in ex1:
+            if e.kind != "return":
+                exits2.append((e, None))
+                continue
+            idv = e.value
+            if not (isinstance(idv, SAgg) and idv.name == "Ident"):
+                R.engine_error(f"K-sqlident: translate_ident_part returned {str(idv)[:160]}")
+                continue
+            if isinstance(idv.f[1], SEnum) and idv.f[1].disc == 0:
+                continue            # written bare: the identifier tables decide (retab)
+            I2 = interp()
+            st = State()
+            st.pc = list(e.pc)
+            st.heap.append(idv)
+            st.frames.append(I2.new_frame(ident_fmt[0], [SRef(-1, ("cell", 0)), SOpaque("formatter", False)]))
+            I2.deadline = time.time() + I2.timeout_s
+            I2.exits = []
+            I2.explore(st)
+            _account(R, I2, "K-sqlident")
+            exits2 += [(x, idv) for x in I2.exits]
+    except Inconclusive as e:
+        R.engine_error(f"K-sqlident: {e}")
+        return
+    rets = [x for x, _ in exits2 if x.kind == "return"]
+    if len(rets) < L + 1:
+        R.engine_error(f"K-sqlident: vacuous - {len(rets)} return exits")
+    nviol = nq = 0
+    seen = set()
+    for e, idv in exits2:
+        if e.kind not in ("return", "panic"):
+            R.engine_error(f"K-sqlident: exit {e.kind} {e.msg}")
+            continue
+        for n in range(L + 1):
+            pc = list(e.pc) + [text.n == n]
+            if e.kind == "panic":
+                goal = z3.BoolVal(True)
+            else:
+                try:
+                    out = output_chars(e.trace, lambda t: n if t is text else z3.simplify(t.n).as_long())
+                except Exception as ex:
+                    R.engine_error(f"K-sqlident: output of a return path not understood: {ex}")
+                    break
+                goal = z3.Not(reads_back(out, text.ch[:n], q))
+            # names that PRQL source can spell (no backtick) and SQLite can hold first, then anything
+            nice = [z3.And(c != 96, c != 0) for c in text.ch[:n]] + [q == 34]
+            v, model, dt = kernels.check(pc + nice, goal, timeout_ms=60000)
+            if v != "sat":
+                v2, model2, dt2 = kernels.check(pc, goal, timeout_ms=60000)
+                v, model, dt = v2, model2, dt + dt2
+            nq += 1
+            R.q(v, dt)
+            if v == "unknown":
+                R.engine_error("K-sqlident: unknown")
+            if v != "sat":
+                continue
+            cps = [model.eval(text.ch[i], model_completion=True).as_long() for i in range(n)]
+            qc = model.eval(q, model_completion=True).as_long()
+            name = "".join(chr(c) if c in (34, 96, 92, 39) else "abcdefghij"[i] for i, c in enumerate(cps)) if e.kind == "return" else "".join(chr(c) for c in cps)
+            if (name, qc) in seen:
+                continue
+            seen.add((name, qc))
+            if "`" in name or qc != 34 or not name:
+                R.cov.setdefault("unobservable_models", []).append(["K-sqlident", name, chr(qc), "not spellable in PRQL source / no engine for this quote character"])
+                continue
+            prql = f"from t\nselect {{`{name}`}}\n"
+            r = drv.compile(prql, "sql.sqlite")
+            if r.get("panic"):
+                nviol += 1
+                R.violation({"engine": "mirsym", "kernel": "K-sqlident", "kind": "panic"}, f"K-sqlident: the column name {name!r} makes the compiler panic: {r['panic'][:120]}",
+                            {"prql": prql, "text": name})
+                continue
+            if not r.get("ok") or not r.get("sql"):
+                R.engine_error(f"K-sqlident: replay program does not compile: {prql!r}: {str(r)[:200]}")
+                continue
+            sql, got, err = r["sql"], None, None
+            try:
+                con = sqlite3.connect(":memory:")
+                con.execute("create table t(%s, zz)" % ('"' + name.replace('"', '""') + '"'))
+                con.execute("insert into t values (7, 8)")
+                cur = con.execute(sql)
+                got = (cur.fetchall(), [d[0] for d in cur.description])
+            except Exception as ex:
+                err = str(ex)
+            if err is not None or got != ([(7,)], [name]):
+                nviol += 1
+                R.violation({"engine": "mirsym", "kernel": "K-sqlident", "kind": "quoted_identifier", "has_backslash": "\\" in name, "adjacent_quotes": '""' in name},
+                            f"K-sqlident: the column name {name!r} is emitted as {sql.strip()[:80]!r}; on a table whose column has exactly that name SQLite " +
+                            (f"rejects the statement ({err})" if err else f"returns {got!r}") + ", expected the column's value 7 under that name",
+                            {"prql": prql, "sql": sql, "text": name, "sqlite": err or repr(got), "kind": "ident"})
+            else:
+                R.cov.setdefault("unobservable_models", []).append(["K-sqlident", name, sql.strip()[:80]])
+    R.sample({"kernel": "K-sqlident", "exits": len(exits2), "queries": nq, "property": f"for every name of <= {L} characters that is written quoted (any regex / keyword verdict, both "
+              "quoting styles, quote character \" or `), the text written is one quoted-identifier token (doubled quote = the only escape) denoting exactly that name", "wall_s": round(time.time() - t0, 2)})
+    R.cov.setdefault("bounds", {})["K-sqlident"] = (f"names of at most {L} characters, every code point, symbolic length; translate_ident_part from the prqlc MIR, Ident::fmt / "
+                                                    "escape_quoted_string / EscapeQuotedString::fmt from the MIR of the sqlparser dependency")
+    core.log(f"[K-sqlident] {len(exits2)} exits, {nq} queries, {nviol} violations in {time.time()-t0:.1f}s")
